@@ -163,6 +163,50 @@ Qed.
 
 (* ------------------------------------------------------------------------------------------ *)
 (** * MutableDictionary::fuzzy_match *)
+(* the order MutableDictionary::fuzzy_match sorts its candidates by (fix 5a329ea) *)
+Definition scored_R (a b : text * nat) : Prop := scored_le a b = true.
+
+Lemma scored_le_total a b : scored_le a b = true \/ scored_le b a = true.
+Proof.
+  unfold scored_le. destruct (Nat.ltb_spec (snd a) (snd b)); [now left|].
+  destruct (Nat.ltb_spec (snd b) (snd a)); [now right|].
+  assert (E : snd a = snd b) by lia. rewrite E, Nat.eqb_refl. apply text_leb_total.
+Qed.
+
+Lemma scored_le_trans a b c : scored_le a b = true -> scored_le b c = true -> scored_le a c = true.
+Proof.
+  unfold scored_le.
+  destruct (Nat.ltb_spec (snd a) (snd b)); destruct (Nat.ltb_spec (snd b) (snd c)); destruct (Nat.ltb_spec (snd a) (snd c));
+    try reflexivity; try lia;
+    destruct (Nat.eqb_spec (snd a) (snd b)); destruct (Nat.eqb_spec (snd b) (snd c)); destruct (Nat.eqb_spec (snd a) (snd c));
+    try discriminate; try lia; try reflexivity.
+  apply text_leb_trans.
+Qed.
+
+Lemma scored_le_antisym a b : scored_R a b -> scored_R b a -> a = b.
+Proof.
+  unfold scored_R, scored_le. destruct a as [wa da], b as [wb db]. cbn [fst snd].
+  destruct (Nat.ltb_spec da db); destruct (Nat.ltb_spec db da); try lia;
+    destruct (Nat.eqb_spec da db); destruct (Nat.eqb_spec db da); try discriminate; try lia.
+  intros H1 H2. f_equal; [now apply text_leb_antisym|assumption].
+Qed.
+
+Lemma scored_R_dist a b : scored_R a b -> snd a <= snd b.
+Proof.
+  unfold scored_R, scored_le. destruct (Nat.ltb_spec (snd a) (snd b)); [lia|].
+  destruct (Nat.eqb_spec (snd a) (snd b)); [lia|discriminate].
+Qed.
+
+Lemma sorted_impl {A} (R R' : A -> A -> Prop) l : (forall a b, R a b -> R' a b) ->
+  StronglySorted R l -> StronglySorted R' l.
+Proof.
+  intros H. induction 1 as [|a l _ IH Ha]; constructor; [exact IH|].
+  eapply Forall_impl; [|exact Ha]. intros b. apply H.
+Qed.
+
+Lemma isort_scored_sorted l : StronglySorted scored_R (isort scored_le l).
+Proof. apply (isort_sorted_gen scored_le scored_le_total scored_le_trans). Qed.
+
 Section MutFuzzy.
   Variable is_lower : char -> bool.
   Variable lower : char -> list char.
@@ -173,38 +217,43 @@ Section MutFuzzy.
   Notation wm_wf := (wm_wf is_lower lower).
 
   Definition min_dist (qn ql w : text) : nat := Nat.min (lev qn w) (lev ql w).
+  (* what the closure computes: both calls of edit_distance_min_alloc saturate at u8::MAX *)
+  Definition sat_dist (qn ql w : text) : nat := Nat.min (min_dist qn ql w) 255.
 
-  (* what the filter_map closure computes, when nothing overflows *)
+  Lemma sat_dist_small qn ql w d : d <= 254 -> sat_dist qn ql w <= d -> sat_dist qn ql w = min_dist qn ql w.
+  Proof. unfold sat_dist. lia. Qed.
+
+  (* what the filter_map closure yields over the candidate words *)
   Definition scored_spec (qn ql : text) (d : nat) (ws : list text) : list (text * nat) :=
-    flat_map (fun w => if min_dist qn ql w <=? d then [(w, min_dist qn ql w)] else []) ws.
+    flat_map (fun w => if sat_dist qn ql w <=? d then [(w, sat_dist qn ql w)] else []) ws.
 
   Lemma scored_spec_in qn ql d ws w s :
-    In (w, s) (scored_spec qn ql d ws) <-> In w ws /\ s = min_dist qn ql w /\ s <= d.
+    In (w, s) (scored_spec qn ql d ws) <-> In w ws /\ s = sat_dist qn ql w /\ s <= d.
   Proof.
     unfold scored_spec. rewrite in_flat_map. split.
-    - intros (w' & Hin & H). destruct (Nat.leb_spec (min_dist qn ql w') d) as [Hle|Hgt]; [|contradiction].
+    - intros (w' & Hin & H). destruct (Nat.leb_spec (sat_dist qn ql w') d) as [Hle|Hgt]; [|contradiction].
       destruct H as [H|[]]. injection H as -> <-. repeat split; assumption.
     - intros (Hin & -> & Hle). exists w. split; [exact Hin|].
-      destruct (Nat.leb_spec (min_dist qn ql w) d); [now left|lia].
+      destruct (Nat.leb_spec (sat_dist qn ql w) d); [now left|lia].
   Qed.
 
   Lemma scored_spec_cons qn ql d w ws :
     scored_spec qn ql d (w :: ws)
-    = (if min_dist qn ql w <=? d then [(w, min_dist qn ql w)] else []) ++ scored_spec qn ql d ws.
+    = (if sat_dist qn ql w <=? d then [(w, sat_dist qn ql w)] else []) ++ scored_spec qn ql d ws.
   Proof. reflexivity. Qed.
 
-  (* the scan neither overflows nor depends on what the two reused buffers hold *)
-  Lemma mut_scan_ok qn ql d : length qn <= 254 -> length ql <= 254 ->
-    forall ws ba bb, (forall w, In w ws -> length w <= 254) ->
-    mut_scan dbg qn ql d ws ba bb = Ok (scored_spec qn ql d ws).
+  (* the scan never panics — whatever the lengths, the build mode and the content of the two reused buffers *)
+  Lemma mut_scan_ok qn ql d :
+    forall ws ba bb, mut_scan dbg qn ql d ws ba bb = Ok (scored_spec qn ql d ws).
   Proof.
-    intros Hqn Hql. induction ws as [|w ws IH]; intros ba bb Hws; cbn [mut_scan]; [reflexivity|].
-    assert (Hw : length w <= 254) by (apply Hws; now left).
-    destruct (wf_min_alloc_correct dbg qn w ba bb Hqn Hw) as (ba1 & bb1 & E1). rewrite E1. cbn [bind].
-    destruct (wf_min_alloc_correct dbg ql w ba1 bb1 Hql Hw) as (ba2 & bb2 & E2). rewrite E2. cbn [bind].
-    rewrite IH by (intros z Hz; apply Hws; now right). cbn [bind].
-    rewrite scored_spec_cons. unfold min_dist.
-    destruct (Nat.min (lev qn w) (lev ql w) <=? d); reflexivity.
+    induction ws as [|w ws IH]; intros ba bb; cbn [mut_scan]; [reflexivity|].
+    destruct (wf_min_alloc_correct dbg qn w ba bb) as (ba1 & bb1 & E1). rewrite E1. cbn [bind].
+    destruct (wf_min_alloc_correct dbg ql w ba1 bb1) as (ba2 & bb2 & E2). rewrite E2. cbn [bind].
+    rewrite IH. cbn [bind].
+    rewrite scored_spec_cons.
+    replace (Nat.min (Nat.min (lev qn w) 255) (Nat.min (lev ql w) 255)) with (sat_dist qn ql w)
+      by (unfold sat_dist, min_dist; lia).
+    destruct (sat_dist qn ql w <=? d); reflexivity.
   Qed.
 
   Definition attach (m : wordmap) (wd : text * nat) : res fres :=
@@ -215,13 +264,25 @@ Section MutFuzzy.
 
   Definition proj (r : fres) : text * nat := (r_word r, r_dist r).
 
-  (* every outcome of the (unstable) sort-and-take over the hash-ordered candidates *)
+  (* the outcome of sort-by-(distance, word)-and-take over the hash-ordered candidates: `s` is THE sorted
+     arrangement of the scored candidates (unique: mut_fuzzy_outcome_unique) *)
   Definition mut_fuzzy_outcome (m : wordmap) (q : text) (d k : nat) (r : list fres) : Prop :=
     let qn := normalized q in
     let ql := to_lower qn in
+    exists s,
+      Permutation s (scored_spec qn ql d (filter (in_window (length qn) d) (mut_words m))) /\
+      StronglySorted scored_R s /\
+      map_res (attach m) (firstn k s) = Ok r.
+
+  Lemma outcome_topk m q d k r : mut_fuzzy_outcome m q d k r ->
     exists top,
-      topk_outcome snd (scored_spec qn ql d (filter (in_window (length qn) d) (mut_words m))) k top /\
+      topk_outcome snd (scored_spec (normalized q) (to_lower (normalized q)) d
+                          (filter (in_window (length (normalized q)) d) (mut_words m))) k top /\
       map_res (attach m) top = Ok r.
+  Proof.
+    intros (s & P & S & E). exists (firstn k s). split; [|exact E].
+    exists s. repeat split; [exact P|]. eapply sorted_impl; [|exact S]. intros a b. apply scored_R_dist.
+  Qed.
 
   Lemma attach_inv m top r : map_res (attach m) top = Ok r ->
     top = map proj r /\ forall x, In x r -> mut_meta m (r_word x) = Some (r_meta x).
@@ -245,26 +306,25 @@ Section MutFuzzy.
     unfold DictModel.mut_meta, wm_get_with_chars. now rewrite (proj2 (wm_get_in m _ e ND) Hin).
   Qed.
 
-  (* the model's deterministic run is one of the outcomes, and it neither panics nor overflows
-     as long as query and words have at most 254 characters *)
+  (* totality, for EVERY query and dictionary (no length bound since fix 7a7de79): the search never
+     panics, in debug or release arithmetic, and what it returns is the outcome *)
   Theorem mut_fuzzy_total m q d k :
     wm_wf m ->
-    length (normalized q) <= 254 -> length (to_lower (normalized q)) <= 254 ->
-    (forall w, In w (mut_words m) -> length w <= 254) ->
     exists r, mut_fuzzy is_lower lower dbg m q d k = Ok r /\ mut_fuzzy_outcome m q d k r.
   Proof.
-    intros Hwf Hqn Hql Hws. unfold mut_fuzzy, mut_fuzzy_outcome.
+    intros Hwf. unfold mut_fuzzy, mut_fuzzy_outcome.
     set (qn := normalized q) in *. set (ql := to_lower qn) in *.
     set (cands := filter (in_window (length qn) d) (mut_words m)).
-    rewrite (mut_scan_ok qn ql d Hqn Hql cands [] []) by (intros w Hw; apply Hws; apply filter_In in Hw; tauto).
+    rewrite (mut_scan_ok qn ql d cands [] []).
     cbn [bind].
-    set (top := firstn k (isort (fun a b => snd a <=? snd b) (scored_spec qn ql d cands))).
-    assert (Htop : topk_outcome snd (scored_spec qn ql d cands) k top) by apply isort_topk.
-    destruct (map_res_total (attach m) top) as [r Er].
-    { intros [w s] Hin. apply (topk_in snd _ _ _ _ Htop) in Hin. apply scored_spec_in in Hin as (Hin & _).
+    set (s := isort scored_le (scored_spec qn ql d cands)).
+    assert (Ps : Permutation s (scored_spec qn ql d cands)) by apply isort_perm.
+    destruct (map_res_total (attach m) (firstn k s)) as [r Er].
+    { intros [w sc] Hin. apply in_firstn in Hin. apply (Permutation_in _ Ps) in Hin.
+      apply scored_spec_in in Hin as (Hin & _).
       apply filter_In in Hin as [Hin _]. destruct (mut_meta_of_word m w Hwf Hin) as (e & _ & _ & E).
       unfold attach. cbn [fst snd]. rewrite E. eauto. }
-    exists r. split; [exact Er|]. exists top. split; [exact Htop|exact Er].
+    exists r. split; [exact Er|]. exists s. repeat split; [exact Ps|apply isort_scored_sorted|exact Er].
   Qed.
 
   Lemma in_window_of_lev (qn x w : text) d : w <> [] -> length x = length qn -> lev x w <= d ->
@@ -276,16 +336,30 @@ Section MutFuzzy.
     destruct (Nat.leb_spec (length qn) d); apply Nat.leb_le; lia.
   Qed.
 
-  (* the property, for every outcome *)
+  (* results are ordered by (distance, word) *)
+  Definition fres_order (a b : fres) : Prop :=
+    r_dist a < r_dist b \/ (r_dist a = r_dist b /\ text_leb (r_word a) (r_word b) = true).
+
+  Lemma scored_R_fres a b : scored_R (proj a) (proj b) -> fres_order a b.
+  Proof.
+    unfold scored_R, scored_le, proj, fres_order. cbn [fst snd].
+    destruct (Nat.ltb_spec (r_dist a) (r_dist b)); [now left|].
+    destruct (Nat.eqb_spec (r_dist a) (r_dist b)); [intros Hle; now right|discriminate].
+  Qed.
+
+  (* the property, for the outcome *)
   Theorem mut_fuzzy_sound m q d k r :
     wm_wf m -> mut_fuzzy_outcome m q d k r ->
     let qn := normalized q in
     let ql := to_lower qn in
-    (* each result is a dictionary word with that word's metadata, at its true (smaller) distance, within the bound *)
+    (* each result is a dictionary word with that word's metadata, at its true (smaller) distance — saturated
+       at 255, which only a caller asking for max_distance = 255 can observe — within the bound *)
     (forall x, In x r ->
        (exists e, In (word_id (r_word x), e) m /\ e_canon e = r_word x /\ e_meta e = r_meta x) /\
-       r_dist x = min_dist qn ql (r_word x) /\ r_dist x <= d /\ r_word x <> []) /\
-    (* ordered by distance, capped *)
+       r_dist x = Nat.min (min_dist qn ql (r_word x)) 255 /\ r_dist x <= d /\
+       (d <= 254 -> r_dist x = min_dist qn ql (r_word x)) /\ r_word x <> []) /\
+    (* ordered by distance, ties by the word; capped *)
+    StronglySorted fres_order r /\
     StronglySorted (fun a b => r_dist a <= r_dist b) r /\ length r <= k /\
     (* no dictionary word is listed twice *)
     NoDup (map r_word r) /\
@@ -297,24 +371,35 @@ Section MutFuzzy.
        (exists x, In x r /\ r_word x = e_canon e) \/
        (length r = k /\ forall x, In x r -> r_dist x <= min_dist qn ql (e_canon e))).
   Proof.
-    intros Hwf (top & Htop & Er). cbv zeta.
+    intros Hwf Hout. pose proof Hout as (s0 & Ps0 & Ss0 & Er0).
+    destruct (outcome_topk m q d k r Hout) as (top & Htop & Er). cbv zeta.
     set (qn := normalized q) in *. set (ql := to_lower qn) in *.
     set (cands := filter (in_window (length qn) d) (mut_words m)) in *.
     destruct (attach_inv m top r Er) as [Etop Hmeta]. pose proof Hwf as [ND K].
     assert (Hin_top : forall x, In x r -> In (proj x) (scored_spec qn ql d cands)).
     { intros x Hx. apply (topk_in snd _ _ _ _ Htop). rewrite Etop. now apply in_map. }
-    repeat split.
-    - (* dictionary word + metadata *)
-      pose proof (Hin_top x H) as Hs. unfold proj in Hs. apply scored_spec_in in Hs as (Hc & _ & _).
-      apply filter_In in Hc as [Hc _]. destruct (mut_meta_of_word m _ Hwf Hc) as (e & He & Hcan & Hm).
-      exists e. repeat split; [exact He|exact Hcan|]. rewrite (Hmeta x H) in Hm. now injection Hm.
-    - pose proof (Hin_top x H) as Hs. unfold proj in Hs. apply scored_spec_in in Hs. tauto.
-    - pose proof (Hin_top x H) as Hs. unfold proj in Hs. apply scored_spec_in in Hs. lia.
-    - pose proof (Hin_top x H) as Hs. unfold proj in Hs. apply scored_spec_in in Hs as (Hc & _ & _).
-      apply filter_In in Hc as [_ Hw]. intros E. rewrite E in Hw. unfold in_window in Hw. cbn [length] in Hw.
-      apply andb_true_iff in Hw as [Hw _]. destruct (length qn <=? d) eqn:El; apply Nat.leb_le in Hw; [lia|].
-      apply Nat.leb_gt in El. lia.
-    - (* sorted *)
+    split; [|split; [|split; [|split; [|split]]]].
+    - intros x Hx. pose proof (Hin_top x Hx) as Hs. unfold proj in Hs.
+      apply scored_spec_in in Hs as (Hc & Hd & Hle).
+      apply filter_In in Hc as [Hc Hw].
+      split; [|split; [|split; [|split]]].
+      + destruct (mut_meta_of_word m _ Hwf Hc) as (e & He & Hcan & Hm).
+        exists e. repeat split; [exact He|exact Hcan|]. rewrite (Hmeta x Hx) in Hm. now injection Hm.
+      + exact Hd.
+      + exact Hle.
+      + intros Hd254. rewrite Hd. apply (sat_dist_small qn ql (r_word x) d Hd254). now rewrite <- Hd.
+      + intros E. rewrite E in Hw. unfold in_window in Hw. cbn [length] in Hw.
+        apply andb_true_iff in Hw as [Hw _]. destruct (length qn <=? d) eqn:El; apply Nat.leb_le in Hw; [lia|].
+        apply Nat.leb_gt in El. lia.
+    - (* sorted by (distance, word) *)
+      destruct (attach_inv m (firstn k s0) r Er0) as [Etop0 _].
+      assert (S0 : StronglySorted scored_R (map proj r)).
+      { rewrite <- Etop0. clear -Ss0. revert k. induction Ss0 as [|a l _ IH Ha]; intros k; [rewrite firstn_nil; constructor|].
+        destruct k; cbn [firstn]; constructor; [apply IH|].
+        rewrite Forall_forall in *. intros y Hy. apply Ha. eapply in_firstn; exact Hy. }
+      apply (proj1 (sorted_map proj scored_R r)) in S0.
+      eapply sorted_impl; [|exact S0]. intros a b. apply scored_R_fres.
+    - (* sorted by distance *)
       pose proof (topk_sorted snd _ _ _ Htop) as S. rewrite Etop in S.
       apply (proj1 (sorted_map proj (key_le snd) r)) in S. exact S.
     - pose proof (topk_length snd _ _ _ Htop) as L. rewrite Etop, map_length in L. lia.
@@ -325,7 +410,7 @@ Section MutFuzzy.
       assert (NDs : NoDup (map fst (scored_spec qn ql d cands))).
       { assert (NDc : NoDup cands) by (now apply NoDup_filter).
         clear -NDc. unfold scored_spec. induction cands as [|w ws IH]; cbn [flat_map map]; [constructor|].
-        inversion NDc as [|? ? Hn NDc']; subst. destruct (min_dist qn ql w <=? d); cbn [app map fst]; [|now apply IH].
+        inversion NDc as [|? ? Hn NDc']; subst. destruct (sat_dist qn ql w <=? d); cbn [app map fst]; [|now apply IH].
         constructor; [|now apply IH]. intros Hin. apply Hn. apply in_map_iff in Hin as ([w' s] & <- & Hin).
         apply (scored_spec_in qn ql d ws w' s) in Hin. tauto. }
       destruct Htop as (s & P & _ & Es).
@@ -341,14 +426,67 @@ Section MutFuzzy.
       { apply filter_In. split; [unfold mut_words; apply in_map_iff; now exists (k0, e)|].
         destruct Hcond as [Hd|[Hl Hd]]; [apply (in_window_of_lev qn qn)|apply (in_window_of_lev qn ql)]; auto. }
       assert (Hmd : min_dist qn ql w <= d) by (unfold min_dist; destruct Hcond as [Hd|[_ Hd]]; lia).
-      assert (Hs : In (w, min_dist qn ql w) (scored_spec qn ql d cands)) by (apply scored_spec_in; auto).
+      assert (Hsd : sat_dist qn ql w <= min_dist qn ql w) by (unfold sat_dist; lia).
+      assert (Hs : In (w, sat_dist qn ql w) (scored_spec qn ql d cands)) by (apply scored_spec_in; repeat split; [exact Hw|lia]).
       destruct (topk_complete snd _ _ _ _ Htop Hs) as [Hin|[Hlen Hall]].
       + left. rewrite Etop in Hin. apply in_map_iff in Hin as (x & Ex & Hx). exists x. split; [exact Hx|].
         unfold proj in Ex. now injection Ex.
       + right. rewrite Etop, map_length in Hlen. split; [exact Hlen|].
-        intros x Hx. specialize (Hall (proj x)). cbn [proj snd] in Hall. apply Hall. rewrite Etop. now apply in_map.
+        intros x Hx. specialize (Hall (proj x)). cbn [proj snd] in Hall.
+        assert (r_dist x <= sat_dist qn ql w); [|lia]. apply Hall. rewrite Etop. now apply in_map.
+  Qed.
+
+  (* the outcome is unique and does not depend on the iteration order of the hash map (fix 5a329ea):
+     two word maps with the same entries in any order give the same result *)
+  Lemma wm_get_perm (m m' : wordmap) id : NoDup (map fst m) -> Permutation m m' -> wm_get m id = wm_get m' id.
+  Proof.
+    intros ND P. assert (ND' : NoDup (map fst m')) by (eapply Permutation_NoDup; [apply Permutation_map; exact P|exact ND]).
+    apply option_ext. intros e. rewrite (wm_get_in m id e ND), (wm_get_in m' id e ND').
+    split; intros H; [eapply Permutation_in; [exact P|exact H]|eapply Permutation_in; [apply Permutation_sym; exact P|exact H]].
+  Qed.
+
+  Lemma map_res_ext {A B} (f g : A -> res B) l : (forall x, In x l -> f x = g x) -> map_res f l = map_res g l.
+  Proof.
+    induction l as [|x l IH]; intros H; cbn [map_res]; [reflexivity|].
+    rewrite (H x (or_introl eq_refl)), IH; [reflexivity|]. intros y Hy. apply H. now right.
+  Qed.
+
+  Theorem mut_fuzzy_outcome_unique m m' q d k r r' :
+    wm_wf m -> Permutation m m' ->
+    mut_fuzzy_outcome m q d k r -> mut_fuzzy_outcome m' q d k r' -> r = r'.
+  Proof.
+    intros [ND K] P (s & Ps & Ss & Er) (s' & Ps' & Ss' & Er').
+    set (qn := normalized q) in *. set (ql := to_lower qn) in *.
+    assert (Pw : Permutation (mut_words m) (mut_words m')) by (unfold mut_words; now apply Permutation_map).
+    assert (Pc : Permutation (scored_spec qn ql d (filter (in_window (length qn) d) (mut_words m)))
+                             (scored_spec qn ql d (filter (in_window (length qn) d) (mut_words m')))).
+    { unfold scored_spec. apply Permutation_flat_map. now apply filter_permutation. }
+    assert (E : s = s').
+    { apply (sorted_perm_eq scored_R scored_le_antisym); [exact Ss|exact Ss'|].
+      rewrite Ps, Ps'. exact Pc. }
+    subst s'.
+    assert (Ea : map_res (attach m) (firstn k s) = map_res (attach m') (firstn k s)).
+    { apply map_res_ext. intros x _. unfold attach, DictModel.mut_meta, wm_get_with_chars.
+      now rewrite (wm_get_perm m m' _ ND P). }
+    rewrite Ea in Er. rewrite Er in Er'. now injection Er'.
   Qed.
 End MutFuzzy.
+
+(* hence the search itself is a function of the set of entries — not of the iteration order of the
+   hash map, nor of the build mode *)
+Theorem mut_fuzzy_deterministic is_lower lower dbg dbg' m m' q d k :
+  wm_wf is_lower lower m -> Permutation m m' ->
+  mut_fuzzy is_lower lower dbg m q d k = mut_fuzzy is_lower lower dbg' m' q d k.
+Proof.
+  intros Hwf P.
+  assert (Hwf' : wm_wf is_lower lower m').
+  { destruct Hwf as [ND K]. split.
+    - eapply Permutation_NoDup; [apply Permutation_map; exact P|exact ND].
+    - intros k0 e H. apply K. eapply Permutation_in; [apply Permutation_sym; exact P|exact H]. }
+  destruct (mut_fuzzy_total is_lower lower dbg m q d k Hwf) as (r & E & O).
+  destruct (mut_fuzzy_total is_lower lower dbg' m' q d k Hwf') as (r' & E' & O').
+  rewrite E, E'. f_equal. exact (mut_fuzzy_outcome_unique is_lower lower m m' q d k r r' Hwf P O O').
+Qed.
 
 (* ------------------------------------------------------------------------------------------ *)
 (** * the automaton stream contract *)
@@ -648,22 +786,51 @@ Lemma fst_zip_incomplete :
   fst_contains ascii_is_lower ascii_lower f w_AB = true.
 Proof. vm_compute. repeat split. now left. Qed.
 
-(* FstDictionary::new called directly with two spellings of one id (FC15a) *)
-Lemma fst_new_collision :
+(* HISTORY — FstDictionary::new before fix 71c98b2, called directly with two spellings of one id (FC15a):
+   the fuzzy index kept "Abc", which the word map had dropped *)
+Lemma fst_new_collision_old :
   let ws := [(w_abc, 1); (w_Abc, 2)] in
-  let f := fst_new ascii_is_lower ascii_lower ws in
-  let m := mut_extend ascii_is_lower ascii_lower [] ws in
-  ~ NoDup (ids_of ascii_is_lower ascii_lower ws) /\
-  mut_exact ascii_is_lower ascii_lower m w_Abc = true /\ fst_exact ascii_is_lower ascii_lower f w_Abc = false /\
+  let f := fst_new_old ascii_is_lower ascii_lower ws in
   In (w_Abc, 2) (f_words f) /\ ~ In w_Abc (fst_words_iter f) /\
   fst_meta ascii_is_lower ascii_lower f w_Abc = Some 1 /\
   fst_fuzzy (spec_stream lev) f w_Abc w_abc 1 10 = Ok [mkfres w_Abc 0 2; mkfres w_abc 0 1].
 Proof.
+  cbv zeta. vm_compute. repeat split; [now left|].
+  intros [H|[]]. discriminate.
+Qed.
+
+(* the same input now: index and word map hold the one spelling "abc" … *)
+Lemma fst_new_collision_now :
+  let ws := [(w_abc, 1); (w_Abc, 2)] in
+  let f := fst_new ascii_is_lower ascii_lower ws in
+  f_words f = [(w_abc, 1)] /\ fst_words_iter f = [w_abc] /\
+  fst_fuzzy (spec_stream lev) f w_Abc w_abc 1 10 = Ok [mkfres w_abc 0 1].
+Proof. vm_compute. repeat split. Qed.
+
+(* … but which of two spellings of one id survives still differs between the constructors (FC15b):
+   FstDictionary::new sorts first ("Abc" < "abc": the last in sorted order wins), MutableDictionary keeps the
+   last inserted — the premise `NoDup ids` of fst_new_agrees_with_mutable cannot be dropped *)
+Lemma fst_new_order :
+  let ws := [(w_abc, 1); (w_Abc, 2)] in
+  let f := fst_new ascii_is_lower ascii_lower ws in
+  let m := mut_extend ascii_is_lower ascii_lower [] ws in
+  ~ NoDup (ids_of ascii_is_lower ascii_lower ws) /\
+  fst_canon ascii_is_lower ascii_lower f w_abc = Some w_abc /\ mut_canon ascii_is_lower ascii_lower m w_abc = Some w_Abc /\
+  fst_exact ascii_is_lower ascii_lower f w_Abc = false /\ mut_exact ascii_is_lower ascii_lower m w_Abc = true /\
+  fst_meta ascii_is_lower ascii_lower f w_abc = Some 1 /\ mut_meta ascii_is_lower ascii_lower m w_abc = Some 2.
+Proof.
   cbv zeta. split.
   - vm_compute. intros H. inversion H as [|? ? Hn _]; subst. apply Hn. now left.
-  - vm_compute. repeat split; [now left|].
-    intros [H|[]]. discriminate.
+  - vm_compute. repeat split.
 Qed.
+
+(* the u8 result type saturates (F19b): dictionary {"b"}, a query of 256 a's, max_distance = 255 — the word is
+   returned at "distance 255" although its distance, 256, exceeds the bound *)
+Lemma mut_fuzzy_saturation :
+  let m := mut_extend ascii_is_lower ascii_lower [] [(b_1, 1)] in
+  mut_fuzzy ascii_is_lower ascii_lower true m (a_n 256) 255 10 = Ok [mkfres b_1 255 1] /\
+  min_dist (normalized (a_n 256)) (to_lower ascii_is_lower ascii_lower (normalized (a_n 256))) b_1 = 256.
+Proof. vm_compute. repeat split. Qed.
 
 (* MutableDictionary's length window is computed from the query, not from its lower-case form:
    when lower-casing changes the length, an exact match of the lower-case form is dropped *)
@@ -688,64 +855,14 @@ Lemma fuzzy_example :
   let m := mut_extend ascii_is_lower ascii_lower [] ws in
   let f := fst_of_mutable ascii_is_lower ascii_lower m in
   let q := [97; 98; 100]%N in   (* "abd" *)
-  mut_fuzzy ascii_is_lower ascii_lower true m q 1 10 = Ok [mkfres w_abc 1 1; mkfres w_ab 1 2] /\
+  mut_fuzzy ascii_is_lower ascii_lower true m q 1 10 = Ok [mkfres w_ab 1 2; mkfres w_abc 1 1] /\
   fst_fuzzy (spec_stream lev) f q q 1 10 = Ok [mkfres w_ab 1 2; mkfres w_abc 1 1] /\
   merged_fuzzy [mut_ops ascii_is_lower ascii_lower true m; fst_ops ascii_is_lower ascii_lower (spec_stream lev) f] q q 1 3
-    = Ok [mkfres w_abc 1 1; mkfres w_ab 1 2; mkfres w_ab 1 2].
+    = Ok [mkfres w_ab 1 2; mkfres w_abc 1 1; mkfres w_ab 1 2].
 Proof. vm_compute. repeat split. Qed.
 
 (* ------------------------------------------------------------------------------------------ *)
 (** * the executable FST model (stable sorts) is one of the admissible outcomes *)
-Lemma text_leb_refl a : text_leb a a = true.
-Proof. induction a as [|x a IH]; cbn [text_leb]; [reflexivity|]. rewrite N.ltb_irrefl, N.eqb_refl. exact IH. Qed.
-
-Lemma text_leb_total a b : text_leb a b = true \/ text_leb b a = true.
-Proof.
-  revert b. induction a as [|x a IH]; intros [|y b]; cbn [text_leb]; auto.
-  destruct (N.ltb_spec x y); [now left|]. destruct (N.ltb_spec y x); [now right|].
-  assert (x = y) as -> by lia. rewrite N.eqb_refl. apply IH.
-Qed.
-
-Lemma text_leb_trans a b c : text_leb a b = true -> text_leb b c = true -> text_leb a c = true.
-Proof.
-  revert b c. induction a as [|x a IH]; intros [|y b] [|z c]; cbn [text_leb]; auto; try discriminate.
-  destruct (N.ltb_spec x y) as [Hxy|Hxy]; destruct (N.ltb_spec y z) as [Hyz|Hyz]; intros H1 H2.
-  - destruct (N.ltb_spec x z); [reflexivity|lia].
-  - destruct (N.eqb_spec y z); [|discriminate]. subst. destruct (N.ltb_spec x z); [reflexivity|lia].
-  - destruct (N.eqb_spec x y); [|discriminate]. subst. destruct (N.ltb_spec y z); [reflexivity|lia].
-  - destruct (N.eqb_spec x y); [|discriminate]. destruct (N.eqb_spec y z); [|discriminate]. subst.
-    rewrite N.ltb_irrefl, N.eqb_refl. eapply IH; eassumption.
-Qed.
-
-Lemma text_leb_antisym a b : text_leb a b = true -> text_leb b a = true -> a = b.
-Proof.
-  revert b. induction a as [|x a IH]; intros [|y b]; cbn [text_leb]; auto; try discriminate.
-  destruct (N.ltb_spec x y) as [Hxy|Hxy]; destruct (N.ltb_spec y x) as [Hyx|Hyx]; intros H1 H2; try lia.
-  - destruct (N.eqb_spec y x); [lia|discriminate].
-  - destruct (N.eqb_spec x y); [lia|discriminate].
-  - destruct (N.eqb_spec x y); [|discriminate]. subst. rewrite N.eqb_refl in H2. f_equal. now apply IH.
-Qed.
-
-Section SortGen.
-  Context {A : Type} (le : A -> A -> bool).
-  Hypothesis le_total : forall a b, le a b = true \/ le b a = true.
-  Hypothesis le_trans : forall a b c, le a b = true -> le b c = true -> le a c = true.
-  Let R (a b : A) : Prop := le a b = true.
-
-  Lemma insert_by_sorted_gen x l : StronglySorted R l -> StronglySorted R (insert_by le x l).
-  Proof.
-    induction 1 as [|y ys Hs IH Hy]; cbn [insert_by]; [repeat constructor|].
-    destruct (le x y) eqn:E.
-    - constructor; [now constructor|]. constructor; [exact E|].
-      eapply Forall_impl; [|exact Hy]. intros z Hz. now apply (le_trans x y z).
-    - constructor; [exact IH|]. rewrite (insert_by_perm le x ys).
-      constructor; [|exact Hy]. destruct (le_total x y) as [H|H]; [congruence|exact H].
-  Qed.
-
-  Lemma isort_sorted_gen l : StronglySorted R (isort le l).
-  Proof. induction l as [|x xs IH]; cbn [isort]; [constructor|now apply insert_by_sorted_gen]. Qed.
-End SortGen.
-
 Definition word_R (a b : fres) : Prop := word_le a b = true.
 
 Lemma isort_word_sorted l : StronglySorted word_R (isort word_le l).
@@ -753,12 +870,6 @@ Proof.
   apply isort_sorted_gen; unfold word_le.
   - intros a b. apply text_leb_total.
   - intros a b c. apply text_leb_trans.
-Qed.
-
-Lemma dedup_from_incl {A} (same : A -> A -> bool) last l x : In x (dedup_from same last l) -> In x l.
-Proof.
-  revert last. induction l as [|y rest IH]; intros last H; cbn [dedup_from] in H; [contradiction|].
-  destruct (same y last); [right; eapply IH; exact H|]. destruct H as [<-|H]; [now left|right; eapply IH; exact H].
 Qed.
 
 (* after a sort by word, dedup leaves exactly one entry per word *)
